@@ -141,6 +141,6 @@ inductive DupPolicy where
   | error
   /-- a panicking macro is reached -/
   | panic
-deriving Repr, DecidableEq
+deriving Repr, DecidableEq, Inhabited
 
 end Flurry.Sig
